@@ -16,9 +16,12 @@ import (
 // subscriber; retransmits on resume; session-present is truthful; a clean
 // connect discards everything.
 
-func init() {
-	core.Register(&core.Check{ID: "C08", Expand: expandC08, Run: runC08})
-}
+// ExpandC08 / RunC08: the check is registered by the e2e package, which adds an
+// end-to-end seed class (real clients against the real broker) to it.
+func ExpandC08(t *testing.T, seed uint64, tier string) []*core.Plan { return expandC08(t, seed, tier) }
+
+// RunC08 runs one plan of the scripted-peer classes.
+func RunC08(t *testing.T, p *core.Plan) *core.Result { return runC08(t, p) }
 
 func expandC08(t *testing.T, seed uint64, tier string) []*core.Plan {
 	r := core.NewRand(core.Derive(seed, "plan"))
